@@ -29,6 +29,7 @@ Inductive op :=
 | OCompact
 | OFlush
 | OCrashReload (k nw : Z)        (* flush interrupted after k backend steps (nw = bucket writes attempted), then load_all *)
+| OFlushFail (pos kind : Z)      (* kind 0: no write failed; 1: bucket write number [pos] failed; 2: the metadata write failed *)
 | OQuery (desc : bool) (q : rq) (stop skipmod : Z)
 | OKeys (cursor : option Z) (limit : option Z)
 | OPoint (k : Z)
@@ -124,12 +125,25 @@ Definition run_op (cfg : config) (r : rstate) (o : op) : ores * rstate :=
           match flush s with
           | None => st
           | Some fo =>
-              let nw' := Z.of_nat (length (dirty_ids (if has_dirty s && negb (has_pending s) then bump_version s else s))) in
+              let nw' := Z.of_nat (length (dirty_ids (pre_flush s))) in
               let k' := if k <=? nw then Z.min k nw' else nw' + (k - nw) in
               crash path_eq_dec (Z.to_nat k') (f_steps fo) st
           end in
       let s' := load_or_new st' in
       (RReload (content s'), mkR s' st' false)
+  | OFlushFail pos kind =>
+      match flush s with
+      | None => (RFlush false (store_content st) (dump_store st), r)
+      | Some fo =>
+          if kind =? 0 then
+            let st' := apply path_eq_dec st (f_steps fo) in
+            (RFlush true (store_content st') (dump_store st'), mkR (f_state fo) st' ex)
+          else
+            let nw' := Z.of_nat (length (dirty_ids (pre_flush s))) in
+            let k' := if kind =? 1 then Z.min pos nw' else nw' in
+            let st' := crash path_eq_dec (Z.to_nat k') (f_steps fo) st in
+            (RFlush false (store_content st') (dump_store st'), mkR (pre_flush s) st' ex)
+      end
   | OQuery desc q stop skipmod =>
       let '(out, calls) := range_query (cb stop skipmod) s desc q 0 in
       (RQuery out calls, r)
@@ -147,14 +161,8 @@ Fixpoint run_ops (cfg : config) (r : rstate) (ops : list op) : list (ores * bool
 
 Definition zeq_list (a b : list Z) : bool := if list_eq_dec Z.eq_dec a b then true else false.
 Definition content_eqb (a b : list (Z * list Z)) : bool :=
-  if list_eq_dec (fun x y : Z * list Z =>
-                    match x, y with (k1, l1), (k2, l2) =>
-                      match Z.eq_dec k1 k2, list_eq_dec Z.eq_dec l1 l2 with
-                      | left e1, left e2 => left (f_equal2 pair e1 e2)
-                      | right n, _ => right (fun h => n (f_equal fst h))
-                      | _, right n => right (fun h => n (f_equal snd h))
-                      end
-                    end) a b then true else false.
+  (Nat.eqb (length a) (length b)) &&
+  forallb (fun xy => Z.eqb (fst (fst xy)) (fst (snd xy)) && zeq_list (snd (fst xy)) (snd (snd xy))) (combine a b).
 Definition pairs_eqb (a b : list (Z * Z)) : bool :=
   (Nat.eqb (length a) (length b)) && forallb (fun xy => Z.eqb (fst (fst xy)) (fst (snd xy)) && Z.eqb (snd (fst xy)) (snd (snd xy))) (combine a b).
 Definition trip_eqb (a b : list (Z * Z * list Z)) : bool :=
@@ -181,7 +189,7 @@ Definition res_match (exact : bool) (m o : ores) : bool :=
   | RKeys a, RKeys b => zeq_list a b
   | RPoint None, RPoint None => true
   | RPoint (Some a), RPoint (Some b) => zeq_list a b
-  | RStats v1 m1, RStats v2 m2 => Z.eqb v1 v2 && (if exact then Z.eqb m1 m2 else true)
+  | RStats v1 m1, RStats v2 m2 => if exact then Z.eqb v1 v2 && Z.eqb m1 m2 else true
   | _, _ => false
   end.
 
